@@ -122,11 +122,11 @@ def text_layer(a, problems):
     schemas = {"table": json.load(open(os.path.join(a.schemas, "model.schema.json"))), "plan": json.load(open(os.path.join(a.schemas, "migration.schema.json")))}
     ans_json = hserde_parse(a.hserde, [{"kind": k, "text": t} for _, k, t in docs])
     ans_yaml = hserde_parse(a.hserde, [{"kind": k + "_yaml", "text": t} for _, k, t in docs])
-    if ans_json is None or ans_yaml is None:
+    ans_gal = hserde_parse(a.hserde, [{"kind": "json2gallina", "text": t} for _, k, t in docs])
+    if ans_json is None or ans_yaml is None or ans_gal is None:
         problems.append({"case": "text-layer", "why": "hserde parse did not answer every request"})
         return {"documents": 0}
-    stats = {"documents": len(docs), "schema_valid": 0, "serde_json_accepts": 0, "serde_yaml_accepts_the_same_text": 0,
-             "binary_accepts": 0, "expected_accept": 0}
+    stats = {"documents": len(docs), "schema_valid": 0, "serde_json_accepts": 0, "serde_yaml_accepts_the_same_text": 0, "binary_accepts": 0}
     for i, (cid, kind, text) in enumerate(docs):
         try:
             valid = jsonschema.Draft202012Validator(schemas[kind]).is_valid(json.loads(text))
@@ -147,21 +147,14 @@ def text_layer(a, problems):
         open(fn, "w", encoding="utf-8", newline="").write(text)
         rcs = [run(a.bin, d, c) for c in cmds]
         accepted = all(rc == 0 for rc, _ in rcs)
-        expected = valid and sj
         stats["schema_valid"] += valid
         stats["serde_json_accepts"] += sj
         stats["serde_yaml_accepts_the_same_text"] += sy
         stats["binary_accepts"] += accepted
-        stats["expected_accept"] += expected
-        cases.append({"case": cid, "schema_valid": valid, "serde_json": sj, "serde_yaml": sy, "binary": accepted})
-        if accepted != expected:
-            out = next((o for rc, o in rcs if rc != 0), "")
-            problems.append({"case": cid, "kind": kind, "file": os.path.relpath(fn, d), "commands": ["vespertide init"] + ["vespertide " + c for c in cmds],
-                             "why": "a .json %s file that %s is %s by the tool (%s): %s" % (
-                                 "model" if kind == "table" else "migration",
-                                 "validates against the shipped schema and that serde_json parses" if expected else "is invalid / unparsable",
-                                 "rejected" if expected else "accepted", " / ".join(cmds), out[-300:]),
-                             "text": text})
+        cases.append({"case": cid, "kind": kind, "schema_valid": valid, "serde_json": sj, "serde_yaml": sy, "binary": accepted,
+                      "binary_output": next((o for rc, o in rcs if rc != 0), "")[-300:], "file": os.path.relpath(fn, d),
+                      "commands": ["vespertide init"] + ["vespertide " + c for c in cmds],
+                      "gallina": ans_gal[i].get("gallina"), "has_dup": ans_gal[i].get("has_dup"), "text": text})
     stats["cases"] = cases
     return stats
 
